@@ -14,8 +14,9 @@ DECIDES = ('(a) packet-end discipline: every non-initial state of USBDataPacketD
            'raises ack exactly once; while waiting for the SETUP data the decoder returns to its initial state on any new '
            'non-SETUP token and on a CRC-valid data packet that is not 8 bytes long, and keeps waiting (for the data of the new '
            'transaction) on a new SETUP token -- so a retry after a corrupted data packet is not missed; the end of a packet that '
-           'produced neither new_token nor new_packet (corrupted data, traffic for another device) returns it to idle, through an '
-           'edge guarded by an end-of-packet register derived from utmi.rx_active alone. ')
+           'produced neither new_token nor new_packet (corrupted data, traffic for another device) can return it to idle (an edge '
+           'that requires neither verdict exists; where it is guarded by an end-of-packet register derived from utmi.rx_active '
+           'it is also excluded by both verdicts). ')
 NOT_DECIDED = 'host-model histories (which packets follow which); endpoint number of the SETUP token (not checked by the decoder).'
 
 
@@ -141,11 +142,11 @@ def run(ctx):
     for st in read_states:
         esc = [e for e in f.out_edges(st) if e.dst == idle and (NT, True) not in q.atoms(e) and (NP, True) not in q.atoms(e)]
         ends = [e for e in esc if any(p and _only_rx_active(x) for x, p in q.atoms(e))]
-        ok = bool(ends)
+        ok = bool(esc)           # necessary: SOME way out that needs neither verdict (how the end of a packet is recognised is free)
         ctx.ob('C06.silent-packet-aborts', 'USBSetupDecoder.read', ok, f.state_loc[st],
                'while waiting for the SETUP data, the end of a packet that produced neither new_token nor new_packet (a corrupted '
-               'data packet, a token or data for another device) must return the decoder to idle -- an edge to idle guarded by an '
-               'end-of-packet register derived from utmi.rx_active alone; edges to idle without new_token / new_packet: %s'
+               'data packet, a token or data for another device) must return the decoder to idle: there must be an edge to idle that '
+               'requires neither new_token nor new_packet; such edges: %s'
                % [q.fmt(e)[:160] for e in esc])
         for e in ends:
             # ... and that edge must not fire for a packet that IS a token for us or a valid data packet
